@@ -85,7 +85,30 @@ func c11(r *core.Run) {
 					continue
 				}
 				nret++
-				sl, ok := ret.Results[0].(*ssa.Slice)
+				// the one-element slice literal, built here or by a helper the message is handed to
+				lit, lfn := ret.Results[0], fn
+				for hop := 0; hop < 2; hop++ {
+					c, isCall := lit.(*ssa.Call)
+					if !isCall {
+						break
+					}
+					cs := p.Callees(c)
+					if len(cs) != 1 || cs[0].Blocks == nil {
+						break
+					}
+					var hret *ssa.Return
+					n := 0
+					for _, hb := range cs[0].Blocks {
+						if rr, isRet := hb.Instrs[len(hb.Instrs)-1].(*ssa.Return); isRet {
+							hret, n = rr, n+1
+						}
+					}
+					if n != 1 || len(hret.Results) != 1 {
+						break
+					}
+					lit, lfn = hret.Results[0], cs[0]
+				}
+				sl, ok := lit.(*ssa.Slice)
 				if !ok {
 					okAll, detail = false, "result is not a slice literal"
 					continue
@@ -100,6 +123,7 @@ func c11(r *core.Run) {
 					okAll, detail = false, fmt.Sprintf("signer slice has %v elements, expected 1", arrLen(al))
 					continue
 				}
+				_ = lfn
 				pr := p.ProvAt(ret.Results[0], "", ret)
 				atoms := pr.DataAtoms()
 				if !(len(atoms) == 1 && atoms[0].Kind == "param" && atoms[0].Idx == 0 && atoms[0].Path == ".Creator") {
